@@ -1,7 +1,7 @@
 (** Token-level model of the grammar of parser/parser.go.y: a predictive parser for the same
     productions that builds the canonical skeleton text of the commands (what the rule actions
     build, up to positions and list grouping), and reports the index of the first token that
-    cannot continue a sentence.  Executable; no proofs. *)
+    cannot continue a sentence.  Executable; the proofs are in GrammarProofs.v. *)
 From Coq Require Import String.
 From GoSh Require Import Base.Bytes Parse.Skel.
 Open Scope N_scope.
@@ -13,20 +13,12 @@ Inductive tkind :=
 | K_BANG | K_LBRACE | K_RBRACE | K_FOR | K_CASE | K_ESAC | K_IN | K_IF | K_ELIF | K_THEN | K_ELSE | K_FI
 | K_WHILE | K_UNTIL | K_DO | K_DONE | K_NL.
 
-Definition tkind_eqb (a b : tkind) : bool :=
-  match a, b with
-  | K_AND, K_AND | K_OR, K_OR | K_PIPE, K_PIPE | K_LPAREN, K_LPAREN | K_RPAREN, K_RPAREN | K_LAE, K_LAE
-  | K_RAE, K_RAE | K_BREAK, K_BREAK | K_AMP, K_AMP | K_SEMI, K_SEMI | K_LT, K_LT | K_GT, K_GT
-  | K_CLOBBER, K_CLOBBER | K_APPEND, K_APPEND | K_HEREDOC, K_HEREDOC | K_HEREDOCI, K_HEREDOCI
-  | K_DUPIN, K_DUPIN | K_DUPOUT, K_DUPOUT | K_RDWR, K_RDWR | K_IONUM, K_IONUM | K_WORD, K_WORD
-  | K_NAME, K_NAME | K_ASSIGN, K_ASSIGN | K_BANG, K_BANG | K_LBRACE, K_LBRACE | K_RBRACE, K_RBRACE
-  | K_FOR, K_FOR | K_CASE, K_CASE | K_ESAC, K_ESAC | K_IN, K_IN | K_IF, K_IF | K_ELIF, K_ELIF
-  | K_THEN, K_THEN | K_ELSE, K_ELSE | K_FI, K_FI | K_WHILE, K_WHILE | K_UNTIL, K_UNTIL | K_DO, K_DO
-  | K_DONE, K_DONE | K_NL, K_NL => true
-  | _, _ => false
-  end.
+Definition tkind_eq_dec (a b : tkind) : {a = b} + {a <> b}.
+Proof. decide equality. Defined.
+Definition tkind_eqb (a b : tkind) : bool := if tkind_eq_dec a b then true else false.
 
 Record token := mkTok { tk : tkind; tw : mword; tidx : nat }.   (* tidx: index in the delivered stream *)
+Definition is (k : tkind) (t : token) : bool := tkind_eqb (tk t) k.
 
 (** here-document bodies as read by the lexer, in announcement order: (Heredoc, Delim) *)
 Definition hbody := (option mword * option mword)%type.
@@ -34,27 +26,29 @@ Definition hbody := (option mword * option mword)%type.
 (** result of a sub-parser: the text built, the remaining tokens, the remaining here-documents *)
 Inductive pres (T : Type) :=
 | POk (x : T) (rest : list token) (hs : list hbody)
-| PErr (at_token : option nat).          (* None: at end of input *)
+| PErr (at_token : option nat)           (* syntax error at that token; None: at end of input *)
+| PFuel.                                 (* recursion budget exhausted (never for the budget of [parse_tokens]) *)
 Arguments POk {T} x rest hs.
 Arguments PErr {T} at_token.
+Arguments PFuel {T}.
 
 Definition err_here {T} (ts : list token) : pres T :=
   match ts with t :: _ => PErr (Some (tidx t)) | [] => PErr None end.
 
-Definition pbind {T U} (m : pres T) (f : T -> list token -> list hbody -> pres U) : pres U :=
-  match m with POk x r h => f x r h | PErr e => PErr e end.
+Notation "'bind' ( x , r , h ) <- m ; k" :=
+  (match m with POk x r h => k | PErr e => PErr e | PFuel => PFuel end)
+    (at level 200, x name, r name, h name, m at level 100, k at level 200).
 
-Definition peek (ts : list token) : option tkind := match ts with t :: _ => Some (tk t) | [] => None end.
-Definition is (k : tkind) (ts : list token) : bool := match ts with t :: _ => tkind_eqb (tk t) k | [] => false end.
+Definition head_is (k : tkind) (ts : list token) : bool := match ts with t :: _ => is k t | [] => false end.
 
 Definition expect (k : tkind) (ts : list token) (hs : list hbody) : pres unit :=
   match ts with
-  | t :: r => if tkind_eqb (tk t) k then POk tt r hs else PErr (Some (tidx t))
+  | t :: r => if is k t then POk tt r hs else PErr (Some (tidx t))
   | [] => PErr None
   end.
 
-Definition skip_nl := fix go (ts : list token) : list token :=
-  match ts with t :: r => if tkind_eqb (tk t) K_NL then go r else ts | [] => [] end.
+Fixpoint skip_nl (ts : list token) : list token :=
+  match ts with t :: r => if is K_NL t then skip_nl r else ts | [] => [] end.
 
 Definition redir_op (k : tkind) : option bytes :=
   match k with
@@ -64,54 +58,68 @@ Definition redir_op (k : tkind) : option bytes :=
   | _ => None
   end.
 Definition is_here (k : tkind) : bool := match k with K_HEREDOC | K_HEREDOCI => true | _ => false end.
+Definition starts_redir (ts : list token) : bool :=
+  match ts with t :: _ => is K_IONUM t || (match redir_op (tk t) with Some _ => true | None => false end) | [] => false end.
 
 (* the first literal of a NAME / IO_NUMBER / ASSIGNMENT_WORD token *)
 Definition first_lit (w : mword) : bytes := match w with MLit s :: _ => s | _ => [] end.
 
-(** io_redir: [IO_NUMBER] op WORD ; a here-document takes the next body *)
-Definition p_redir (ts : list token) (hs : list hbody) : option (pres bytes) :=
-  let '(n, ts1) := match ts with
-                   | t :: r => if tkind_eqb (tk t) K_IONUM then (Some (first_lit (tw t)), r) else (None, ts)
-                   | [] => (None, ts)
-                   end in
-  match ts1 with
+(** token-level side conditions the lexer guarantees (grammar rules 5, 7, 8) *)
+Definition is_name_start (c : N) : bool := ((65 <=? c) && (c <=? 90)) || ((97 <=? c) && (c <=? 122)) || (c =? 95) || (128 <=? c).
+Definition is_name_char (c : N) : bool := is_name_start c || ((48 <=? c) && (c <=? 57)).
+Definition is_name (s : bytes) : bool :=
+  match s with c :: r => is_name_start c && forallb is_name_char r | [] => false end.
+Definition name_word (w : mword) : bool := match w with [MLit s] => is_name s | _ => false end.
+
+(** a here-document redirection takes the next body *)
+Definition take_body (k : tkind) (hs : list hbody) : hbody * list hbody :=
+  if is_here k then match hs with h :: hs' => (h, hs') | [] => ((None, None), []) end
+  else ((None, None), hs).
+
+Definition sk_redir (n : option bytes) (op : bytes) (target : mword) (body : hbody) : bytes :=
+  B "r{" ++ (match n with Some x => hex x | None => B "N" end) ++ B ":" ++ hex op ++ B ":"
+    ++ sk_word target ++ B ":" ++ sk_oword (fst body) ++ B ":" ++ sk_oword (snd body) ++ B "}".
+
+(** io_redir: [IO_NUMBER] op WORD *)
+Definition p_redir (ts : list token) (hs : list hbody) : pres bytes :=
+  match ts with
+  | [] => PErr None
   | t :: r =>
-    match redir_op (tk t) with
-    | Some op =>
-      Some (match r with
-            | w :: r' =>
-              if tkind_eqb (tk w) K_WORD then
-                let '(body, hs') := if is_here (tk t) then
-                                      match hs with h :: hs' => (h, hs') | [] => ((None, None), []) end
-                                    else ((None, None), hs) in
-                POk (B "r{" ++ (match n with Some x => hex x | None => B "N" end) ++ B ":" ++ hex op ++ B ":"
-                       ++ sk_word (tw w) ++ B ":" ++ sk_oword (fst body) ++ B ":" ++ sk_oword (snd body) ++ B "}") r' hs'
-              else PErr (Some (tidx w))
-            | [] => PErr None
-            end)
-    | None => match n with Some _ => Some (PErr (Some (tidx t))) | None => None end
+    let '(n, ops) := if is K_IONUM t then (Some (first_lit (tw t)), r) else (None, ts) in
+    match ops with
+    | [] => PErr None
+    | o :: r1 =>
+      match redir_op (tk o) with
+      | None => PErr (Some (tidx o))
+      | Some op =>
+        match r1 with
+        | [] => PErr None
+        | w :: r2 =>
+          if is K_WORD w then
+            let '(body, hs') := take_body (tk o) hs in
+            POk (sk_redir n op (tw w) body) r2 hs'
+          else PErr (Some (tidx w))
+        end
+      end
     end
-  | [] => match n with Some _ => Some (PErr None) | None => None end
   end.
 
 (* redir_list: zero or more *)
-Fixpoint p_redirs (fuel : nat) (ts : list token) (hs : list hbody) (acc : list bytes) : pres (list bytes) :=
-  match fuel with
-  | O => PErr None
-  | S f =>
-    match p_redir ts hs with
-    | Some (POk r ts' hs') => p_redirs f ts' hs' (acc ++ [r])
-    | Some (PErr e) => PErr e
-    | None => POk acc ts hs
-    end
+Fixpoint p_redirs (n : nat) (ts : list token) (hs : list hbody) (acc : list bytes) : pres (list bytes) :=
+  match n with
+  | O => PFuel
+  | S n' =>
+    if starts_redir ts then
+      bind (r, ts', hs') <- p_redir ts hs; p_redirs n' ts' hs' (acc ++ [r])
+    else POk acc ts hs
   end.
 
 (* assignment: the rule action assign() splits the first literal at '=' *)
 Fixpoint split_eq (s : bytes) : option (bytes * bytes) :=
   match s with
   | [] => None
-  | 61 :: r => Some ([], r)
-  | c :: r => match split_eq r with Some (a, b) => Some (c :: a, b) | None => None end
+  | c :: r => if c =? 61 then Some ([], r)
+              else match split_eq r with Some (a, b) => Some (c :: a, b) | None => None end
   end.
 
 Definition sk_assign (w : mword) : bytes :=
@@ -126,294 +134,315 @@ Definition sk_assign (w : mword) : bytes :=
   | _ => B "N" ++ hex (B "=") ++ sk_word w
   end.
 
+Definition assign_word (w : mword) : bool :=
+  match w with
+  | MLit s :: _ => match split_eq s with Some (name, _) => is_name name | None => false end
+  | _ => false
+  end.
+
 Definition starts_cmd (k : tkind) : bool :=
   match k with
   | K_WORD | K_NAME | K_ASSIGN | K_IONUM | K_LT | K_GT | K_CLOBBER | K_APPEND | K_HEREDOC | K_HEREDOCI | K_DUPIN | K_DUPOUT | K_RDWR
   | K_LPAREN | K_LBRACE | K_LAE | K_FOR | K_CASE | K_IF | K_WHILE | K_UNTIL | K_BANG => true
   | _ => false
   end.
+Definition head_starts_cmd (ts : list token) : bool := match ts with t :: _ => starts_cmd (tk t) | [] => false end.
 
 Definition fmt_cmds (l : list bytes) : bytes := B "(" ++ join (B ";") l ++ B ")".
 
-Section Rec.
-  (* simple command: prefix (redirs, assigns) [WORD suffix (redirs, words)] *)
-  Fixpoint p_simple (fuel : nat) (ts : list token) (hs : list hbody) (seen_word : bool)
-           (assigns args redirs : list bytes) : pres bytes :=
-    match fuel with
-    | O => PErr None
-    | S f =>
-      let finish := POk (B "simple{(" ++ join (B ";") assigns ++ B ")(" ++ join (B ";") args ++ B ")}" ++ fmt_cmds redirs) ts hs in
-      match p_redir ts hs with
-      | Some (POk r ts' hs') => p_simple f ts' hs' seen_word assigns args (redirs ++ [r])
-      | Some (PErr e) => PErr e
-      | None =>
-        match ts with
-        | t :: r =>
-          if tkind_eqb (tk t) K_ASSIGN && negb seen_word then p_simple f r hs false (assigns ++ [sk_assign (tw t)]) args redirs
-          else if tkind_eqb (tk t) K_WORD then p_simple f r hs true assigns (args ++ [sk_word (tw t)]) redirs
-          else finish
-        | [] => finish
-        end
-      end
-    end.
+Definition sk_simple (assigns args redirs : list bytes) : bytes :=
+  B "cmd{simple{(" ++ join (B ";") assigns ++ B ")(" ++ join (B ";") args ++ B ")}" ++ fmt_cmds redirs ++ B "}".
 
-  Fixpoint p_words (fuel : nat) (ts : list token) (acc : list bytes) : list bytes * list token :=
-    match fuel with
-    | O => (acc, ts)
-    | S f => match ts with
-             | t :: r => if tkind_eqb (tk t) K_WORD then p_words f r (acc ++ [sk_word (tw t)]) else (acc, ts)
-             | [] => (acc, ts)
-             end
-    end.
-
-  (** the mutually recursive part, on one fuel *)
-  Fixpoint p_andor (fuel : nat) (ts : list token) (hs : list hbody) {struct fuel} : pres bytes :=
-    match fuel with
-    | O => PErr None
-    | S f =>
-      pbind (p_pipeline f ts hs) (fun p1 ts1 hs1 =>
-        (fix more (n : nat) (acc : bytes) (ts : list token) (hs : list hbody) : pres bytes :=
-           match n with
-           | O => PErr None
-           | S n' =>
-             match ts with
-             | t :: r =>
-               if tkind_eqb (tk t) K_AND || tkind_eqb (tk t) K_OR then
-                 pbind (p_pipeline f r hs) (fun p2 ts2 hs2 =>
-                   more n' (acc ++ B "," ++ hex (if tkind_eqb (tk t) K_AND then B "&&" else B "||") ++ p2) ts2 hs2)
-               else POk acc ts hs
-             | [] => POk acc ts hs
-             end
-           end) f (B "ao{" ++ p1) ts1 hs1)
-    end
-  with p_pipeline (fuel : nat) (ts : list token) (hs : list hbody) {struct fuel} : pres bytes :=
-    match fuel with
-    | O => PErr None
-    | S f =>
-      let '(bang, ts0) := match ts with t :: r => if tkind_eqb (tk t) K_BANG then (true, r) else (false, ts) | [] => (false, ts) end in
-      pbind (p_cmd f ts0 hs) (fun c1 ts1 hs1 =>
-        (fix more (n : nat) (acc : bytes) (ts : list token) (hs : list hbody) : pres bytes :=
-           match n with
-           | O => PErr None
-           | S n' =>
-             match ts with
-             | t :: r =>
-               if tkind_eqb (tk t) K_PIPE then
-                 pbind (p_cmd f r hs) (fun c2 ts2 hs2 => more n' (acc ++ B "," ++ hex (B "|") ++ c2) ts2 hs2)
-               else POk (acc ++ B "}") ts hs
-             | [] => POk (acc ++ B "}") ts hs
-             end
-           end) f (B "pl{" ++ (if bang then B "!," else []) ++ c1) ts1 hs1)
-    end
-  (* a compound_list: linebreak term [sep]; returns the and-or texts *)
-  with p_clist (fuel : nat) (ts : list token) (hs : list hbody) {struct fuel} : pres (list bytes) :=
-    match fuel with
-    | O => PErr None
-    | S f =>
-      let ts0 := skip_nl ts in
-      (fix more (n : nat) (acc : list bytes) (ts : list token) (hs : list hbody) : pres (list bytes) :=
-         match n with
-         | O => PErr None
-         | S n' =>
-           pbind (p_andor f ts hs) (fun a ts1 hs1 =>
-             (* separator: sep_op linebreak | newline_list | none *)
-             match ts1 with
-             | t :: r =>
-               if tkind_eqb (tk t) K_AMP || tkind_eqb (tk t) K_SEMI then
-                 let a' := a ++ B "}" ++ (if tkind_eqb (tk t) K_AMP then B "&" else B ";") in
-                 let r' := skip_nl r in
-                 if match peek r' with Some k => starts_cmd k | None => false end
-                 then more n' (acc ++ [a']) r' hs1 else POk (acc ++ [a']) r' hs1
-               else if tkind_eqb (tk t) K_NL then
-                 let r' := skip_nl r in
-                 if match peek r' with Some k => starts_cmd k | None => false end
-                 then more n' (acc ++ [a ++ B "};"]) r' hs1 else POk (acc ++ [a ++ B "};"]) r' hs1
-               else POk (acc ++ [a ++ B "};"]) ts1 hs1
-             | [] => POk (acc ++ [a ++ B "};"]) ts1 hs1
-             end)
-         end) f [] ts0 hs
-    end
-  with p_cmd (fuel : nat) (ts : list token) (hs : list hbody) {struct fuel} : pres bytes :=
-    match fuel with
-    | O => PErr None
-    | S f =>
-      let with_redirs (e : bytes) (ts : list token) (hs : list hbody) : pres bytes :=
-        pbind (p_redirs (S (length ts)) ts hs []) (fun rs ts' hs' => POk (B "cmd{" ++ e ++ fmt_cmds rs ++ B "}") ts' hs') in
-      let compound (ts : list token) (hs : list hbody) : option (pres bytes) :=
-        match ts with
-        | t :: r =>
-          match tk t with
-          | K_LPAREN =>
-            Some (pbind (p_clist f r hs) (fun l ts1 hs1 =>
-                  pbind (expect K_RPAREN ts1 hs1) (fun _ ts2 hs2 => POk (B "subshell" ++ fmt_cmds l) ts2 hs2)))
-          | K_LBRACE =>
-            Some (pbind (p_clist f r hs) (fun l ts1 hs1 =>
-                  pbind (expect K_RBRACE ts1 hs1) (fun _ ts2 hs2 => POk (B "group" ++ fmt_cmds l) ts2 hs2)))
-          | K_LAE =>
-            Some (match r with
-                  | w :: r1 => if tkind_eqb (tk w) K_WORD then
-                                 pbind (expect K_RAE r1 hs) (fun _ ts2 hs2 => POk (B "arith" ++ sk_word (tw w)) ts2 hs2)
-                               else PErr (Some (tidx w))
-                  | [] => PErr None
-                  end)
-          | K_WHILE | K_UNTIL =>
-            Some (pbind (p_clist f r hs) (fun c ts1 hs1 =>
-                  pbind (expect K_DO ts1 hs1) (fun _ ts2 hs2 =>
-                  pbind (p_clist f ts2 hs2) (fun l ts3 hs3 =>
-                  pbind (expect K_DONE ts3 hs3) (fun _ ts4 hs4 =>
-                    POk ((if tkind_eqb (tk t) K_WHILE then B "while{" else B "until{") ++ fmt_cmds c ++ fmt_cmds l ++ B "}") ts4 hs4)))))
-          | K_IF =>
-            Some (pbind (p_clist f r hs) (fun c ts1 hs1 =>
-                  pbind (expect K_THEN ts1 hs1) (fun _ ts2 hs2 =>
-                  pbind (p_clist f ts2 hs2) (fun l ts3 hs3 =>
-                  pbind ((fix elses (n : nat) (acc : list bytes) (ts : list token) (hs : list hbody) : pres (list bytes) :=
-                            match n with
-                            | O => PErr None
-                            | S n' =>
-                              match ts with
-                              | e :: re =>
-                                if tkind_eqb (tk e) K_ELIF then
-                                  pbind (p_clist f re hs) (fun c2 tsa hsa =>
-                                  pbind (expect K_THEN tsa hsa) (fun _ tsb hsb =>
-                                  pbind (p_clist f tsb hsb) (fun l2 tsc hsc =>
-                                    elses n' (acc ++ [B "elif{" ++ fmt_cmds c2 ++ fmt_cmds l2 ++ B "}"]) tsc hsc)))
-                                else if tkind_eqb (tk e) K_ELSE then
-                                  pbind (p_clist f re hs) (fun l2 tsa hsa => POk (acc ++ [B "else" ++ fmt_cmds l2]) tsa hsa)
-                                else POk acc ts hs
-                              | [] => POk acc ts hs
-                              end
-                            end) f [] ts3 hs3) (fun es ts4 hs4 =>
-                  pbind (expect K_FI ts4 hs4) (fun _ ts5 hs5 =>
-                    POk (B "if{" ++ fmt_cmds c ++ fmt_cmds l ++ fmt_cmds es ++ B "}") ts5 hs5))))))
-          | K_FOR =>
-            Some (match r with
-                  | nm :: r1 =>
-                    if tkind_eqb (tk nm) K_NAME then
-                      let name := hex (first_lit (tw nm)) in
-                      let body (inflag : bytes) (items : list bytes) (ts : list token) (hs : list hbody) : pres bytes :=
-                        pbind (expect K_DO ts hs) (fun _ ts2 hs2 =>
-                        pbind (p_clist f ts2 hs2) (fun l ts3 hs3 =>
-                        pbind (expect K_DONE ts3 hs3) (fun _ ts4 hs4 =>
-                          POk (B "for{" ++ name ++ B ":" ++ inflag ++ fmt_cmds items ++ fmt_cmds l ++ B "}") ts4 hs4))) in
-                      (* For NAME Do | For NAME seq_sep Do | For NAME linebreak In [word_list] seq_sep Do *)
-                      if is K_DO r1 then body (B "0") [] r1 hs
-                      else
-                        let r2 := skip_nl r1 in
-                        if is K_IN r2 then
-                          let '(items, r3) := p_words (S (length r2)) (tl r2) [] in
-                          (* seq_sep: ';' linebreak | newline_list *)
-                          match r3 with
-                          | s :: r4 =>
-                            if tkind_eqb (tk s) K_SEMI || tkind_eqb (tk s) K_NL then body (B "1") items (skip_nl r4) hs
-                            else PErr (Some (tidx s))
-                          | [] => PErr None
-                          end
-                        else
-                          match r1 with
-                          | s :: r4 =>
-                            if tkind_eqb (tk s) K_SEMI then body (B "0") [] (skip_nl r4) hs
-                            else if tkind_eqb (tk s) K_NL then
-                              (* newline_list then Do (seq_sep) ; "In" was excluded above *)
-                              if is K_DO r2 then body (B "0") [] r2 hs else err_here r2
-                            else PErr (Some (tidx s))
-                          | [] => PErr None
-                          end
-                    else PErr (Some (tidx nm))
-                  | [] => PErr None
-                  end)
-          | K_CASE =>
-            Some (match r with
-                  | w :: r1 =>
-                    if tkind_eqb (tk w) K_WORD then
-                      pbind (expect K_IN (skip_nl r1) hs) (fun _ ts2 hs2 =>
-                      pbind ((fix items (n : nat) (acc : list bytes) (ts : list token) (hs : list hbody) : pres (list bytes) :=
-                                match n with
-                                | O => PErr None
-                                | S n' =>
-                                  let ts := skip_nl ts in
-                                  if is K_ESAC ts then POk acc ts hs
-                                  else
-                                    let ts1 := match ts with p :: rp => if tkind_eqb (tk p) K_LPAREN then rp else ts | [] => ts end in
-                                    (* pattern_list: WORD ('|' WORD)* *)
-                                    match ts1 with
-                                    | p1 :: rp =>
-                                      if tkind_eqb (tk p1) K_WORD then
-                                        let '(pats, ts2) :=
-                                          (fix pl (m : nat) (acc : list bytes) (ts : list token) : list bytes * list token :=
-                                             match m with
-                                             | O => (acc, ts)
-                                             | S m' =>
-                                               match ts with
-                                               | b :: w2 :: r2 =>
-                                                 if tkind_eqb (tk b) K_PIPE && tkind_eqb (tk w2) K_WORD then pl m' (acc ++ [sk_word (tw w2)]) r2
-                                                 else (acc, ts)
-                                               | _ => (acc, ts)
-                                               end
-                                             end) (S (length rp)) [sk_word (tw p1)] rp in
-                                        pbind (expect K_RPAREN ts2 hs) (fun _ ts3 hs3 =>
-                                          let ts4 := skip_nl ts3 in
-                                          let after (l : list bytes) (ts : list token) (hs : list hbody) : pres (list bytes) :=
-                                            match ts with
-                                            | b :: rb =>
-                                              if tkind_eqb (tk b) K_BREAK then
-                                                items n' (acc ++ [B "item{" ++ fmt_cmds pats ++ fmt_cmds l ++ B "1}"]) rb hs
-                                              else if tkind_eqb (tk b) K_ESAC then
-                                                POk (acc ++ [B "item{" ++ fmt_cmds pats ++ fmt_cmds l ++ B "0}"]) ts hs
-                                              else PErr (Some (tidx b))
-                                            | [] => PErr None
-                                            end in
-                                          if is K_BREAK ts4 || is K_ESAC ts4 then after [] ts4 hs3
-                                          else pbind (p_clist f ts3 hs3) (fun l ts5 hs5 => after l ts5 hs5))
-                                      else PErr (Some (tidx p1))
-                                    | [] => PErr None
-                                    end
-                                end) f [] ts2 hs2) (fun its ts3 hs3 =>
-                      pbind (expect K_ESAC ts3 hs3) (fun _ ts4 hs4 =>
-                        POk (B "case{" ++ sk_word (tw w) ++ fmt_cmds its ++ B "}") ts4 hs4)))
-                    else PErr (Some (tidx w))
-                  | [] => PErr None
-                  end)
-          | _ => None
-          end
-        | [] => None
-        end in
+(** simple command: cmd_prefix (redirections, assignments) [WORD cmd_suffix (redirections, words)] *)
+Fixpoint p_simple (n : nat) (ts : list token) (hs : list hbody) (seen_word : bool)
+         (assigns args redirs : list bytes) : pres bytes :=
+  match n with
+  | O => PFuel
+  | S n' =>
+    if starts_redir ts then
+      bind (r, ts', hs') <- p_redir ts hs; p_simple n' ts' hs' seen_word assigns args (redirs ++ [r])
+    else
       match ts with
       | t :: r =>
-        if tkind_eqb (tk t) K_NAME then
-          (* func_def: NAME '(' ')' linebreak func_body *)
-          pbind (expect K_LPAREN r hs) (fun _ ts1 hs1 =>
-          pbind (expect K_RPAREN ts1 hs1) (fun _ ts2 hs2 =>
-            let ts3 := skip_nl ts2 in
-            match compound ts3 hs2 with
-            | Some m =>
-              pbind m (fun e ts4 hs4 =>
-              pbind (with_redirs e ts4 hs4) (fun body ts5 hs5 =>
-                POk (B "cmd{func{" ++ hex (first_lit (tw t)) ++ B ":list(ao{pl{" ++ body ++ B "}};)}()}") ts5 hs5))
-            | None => err_here ts3
-            end))
-        else
-          match compound ts hs with
-          | Some m => pbind m (fun e ts1 hs1 => with_redirs e ts1 hs1)
-          | None =>
-            if starts_cmd (tk t) && negb (tkind_eqb (tk t) K_BANG) then
-              pbind (p_simple (S (length ts)) ts hs false [] [] [])
-                    (fun s ts1 hs1 => POk (B "cmd{" ++ s ++ B "}") ts1 hs1)
-            else PErr (Some (tidx t))
-          end
+        if is K_ASSIGN t && negb seen_word then
+          if assign_word (tw t) then p_simple n' r hs false (assigns ++ [sk_assign (tw t)]) args redirs
+          else PErr (Some (tidx t))
+        else if is K_WORD t then p_simple n' r hs true assigns (args ++ [sk_word (tw t)]) redirs
+        else POk (sk_simple assigns args redirs) ts hs
+      | [] => POk (sk_simple assigns args redirs) ts hs
+      end
+  end.
+
+Fixpoint p_words (ts : list token) (acc : list bytes) : list bytes * list token :=
+  match ts with
+  | t :: r => if is K_WORD t then p_words r (acc ++ [sk_word (tw t)]) else (acc, ts)
+  | [] => (acc, [])
+  end.
+
+(* the rest of a pattern_list: ('|' WORD)* *)
+Fixpoint p_pats (ts : list token) (acc : list bytes) : list bytes * list token :=
+  match ts with
+  | b :: r => if is K_PIPE b then
+                match r with
+                | w :: r2 => if is K_WORD w then p_pats r2 (acc ++ [sk_word (tw w)]) else (acc, ts)
+                | [] => (acc, ts)
+                end
+              else (acc, ts)
+  | [] => (acc, [])
+  end.
+
+Definition sk_ao_op (t : token) : bytes := hex (if is K_AND t then B "&&" else B "||").
+Definition sk_sep (t : token) : bytes := if is K_AMP t then B "&" else B ";".
+
+Fixpoint p_andor (n : nat) (ts : list token) (hs : list hbody) {struct n} : pres bytes :=
+  match n with
+  | O => PFuel
+  | S n' =>
+    bind (p1, ts1, hs1) <- p_pipeline n' ts hs;
+    p_ao_more n' (B "ao{" ++ p1) ts1 hs1
+  end
+(* (AND | OR) linebreak pipeline ... ; the text stays open: the separator closes it *)
+with p_ao_more (n : nat) (acc : bytes) (ts : list token) (hs : list hbody) {struct n} : pres bytes :=
+  match n with
+  | O => PFuel
+  | S n' =>
+    match ts with
+    | t :: r =>
+      if is K_AND t || is K_OR t then
+        bind (p2, ts2, hs2) <- p_pipeline n' (skip_nl r) hs;
+        p_ao_more n' (acc ++ B "," ++ sk_ao_op t ++ p2) ts2 hs2
+      else POk acc ts hs
+    | [] => POk acc ts hs
+    end
+  end
+with p_pipeline (n : nat) (ts : list token) (hs : list hbody) {struct n} : pres bytes :=
+  match n with
+  | O => PFuel
+  | S n' =>
+    let '(bang, ts0) := match ts with t :: r => if is K_BANG t then (true, r) else (false, ts) | [] => (false, ts) end in
+    bind (c1, ts1, hs1) <- p_cmd n' ts0 hs;
+    p_pl_more n' (B "pl{" ++ (if bang then B "!," else []) ++ c1) ts1 hs1
+  end
+with p_pl_more (n : nat) (acc : bytes) (ts : list token) (hs : list hbody) {struct n} : pres bytes :=
+  match n with
+  | O => PFuel
+  | S n' =>
+    match ts with
+    | t :: r =>
+      if is K_PIPE t then
+        bind (c2, ts2, hs2) <- p_cmd n' (skip_nl r) hs;
+        p_pl_more n' (acc ++ B "," ++ hex (B "|") ++ c2) ts2 hs2
+      else POk (acc ++ B "}") ts hs
+    | [] => POk (acc ++ B "}") ts hs
+    end
+  end
+(** compound_list: linebreak term [separator]; returns the and-or texts *)
+with p_clist (n : nat) (ts : list token) (hs : list hbody) {struct n} : pres (list bytes) :=
+  match n with
+  | O => PFuel
+  | S n' => p_term n' [] (skip_nl ts) hs
+  end
+with p_term (n : nat) (acc : list bytes) (ts : list token) (hs : list hbody) {struct n} : pres (list bytes) :=
+  match n with
+  | O => PFuel
+  | S n' =>
+    bind (a, ts1, hs1) <- p_andor n' ts hs;
+    match ts1 with
+    | t :: r =>
+      if is K_AMP t || is K_SEMI t then
+        let acc' := acc ++ [a ++ B "}" ++ sk_sep t] in
+        let r' := skip_nl r in
+        if head_starts_cmd r' then p_term n' acc' r' hs1 else POk acc' r' hs1
+      else if is K_NL t then
+        let acc' := acc ++ [a ++ B "};"] in
+        let r' := skip_nl r in
+        if head_starts_cmd r' then p_term n' acc' r' hs1 else POk acc' r' hs1
+      else POk (acc ++ [a ++ B "};"]) ts1 hs1
+    | [] => POk (acc ++ [a ++ B "};"]) ts1 hs1
+    end
+  end
+with p_cmd (n : nat) (ts : list token) (hs : list hbody) {struct n} : pres bytes :=
+  match n with
+  | O => PFuel
+  | S n' =>
+    match ts with
+    | [] => PErr None
+    | t :: r =>
+      if is K_NAME t then
+        (* func_def: NAME '(' ')' linebreak compound_cmd [redir_list] *)
+        if name_word (tw t) then
+          bind (_u1, ts1, hs1) <- expect K_LPAREN r hs;
+          bind (_u2, ts2, hs2) <- expect K_RPAREN ts1 hs1;
+          bind (e, ts3, hs3) <- p_compound n' (skip_nl ts2) hs2;
+          bind (rs, ts4, hs4) <- p_redirs n' ts3 hs3 [];
+          POk (B "cmd{func{" ++ hex (first_lit (tw t)) ++ B ":list(ao{pl{cmd{" ++ e ++ fmt_cmds rs ++ B "}}};)}()}") ts4 hs4
+        else PErr (Some (tidx t))
+      else
+        match tk t with
+        | K_LPAREN | K_LBRACE | K_LAE | K_FOR | K_CASE | K_IF | K_WHILE | K_UNTIL =>
+          bind (e, ts1, hs1) <- p_compound n' ts hs;
+          bind (rs, ts2, hs2) <- p_redirs n' ts1 hs1 [];
+          POk (B "cmd{" ++ e ++ fmt_cmds rs ++ B "}") ts2 hs2
+        | K_WORD | K_ASSIGN | K_IONUM | K_LT | K_GT | K_CLOBBER | K_APPEND | K_HEREDOC | K_HEREDOCI | K_DUPIN | K_DUPOUT | K_RDWR =>
+          p_simple n' ts hs false [] [] []
+        | _ => PErr (Some (tidx t))
+        end
+    end
+  end
+with p_compound (n : nat) (ts : list token) (hs : list hbody) {struct n} : pres bytes :=
+  match n with
+  | O => PFuel
+  | S n' =>
+    match ts with
+    | [] => PErr None
+    | t :: r =>
+      match tk t with
+      | K_LPAREN =>
+        bind (l, ts1, hs1) <- p_clist n' r hs;
+        bind (_u, ts2, hs2) <- expect K_RPAREN ts1 hs1;
+        POk (B "subshell" ++ fmt_cmds l) ts2 hs2
+      | K_LBRACE =>
+        bind (l, ts1, hs1) <- p_clist n' r hs;
+        bind (_u, ts2, hs2) <- expect K_RBRACE ts1 hs1;
+        POk (B "group" ++ fmt_cmds l) ts2 hs2
+      | K_LAE =>
+        match r with
+        | w :: r1 =>
+          if is K_WORD w then
+            bind (_u, ts2, hs2) <- expect K_RAE r1 hs;
+            POk (B "arith" ++ sk_word (tw w)) ts2 hs2
+          else PErr (Some (tidx w))
+        | [] => PErr None
+        end
+      | K_WHILE | K_UNTIL =>
+        bind (c, ts1, hs1) <- p_clist n' r hs;
+        bind (_u1, ts2, hs2) <- expect K_DO ts1 hs1;
+        bind (l, ts3, hs3) <- p_clist n' ts2 hs2;
+        bind (_u2, ts4, hs4) <- expect K_DONE ts3 hs3;
+        POk ((if is K_WHILE t then B "while{" else B "until{") ++ fmt_cmds c ++ fmt_cmds l ++ B "}") ts4 hs4
+      | K_IF =>
+        bind (c, ts1, hs1) <- p_clist n' r hs;
+        bind (_u1, ts2, hs2) <- expect K_THEN ts1 hs1;
+        bind (l, ts3, hs3) <- p_clist n' ts2 hs2;
+        bind (es, ts4, hs4) <- p_elses n' [] ts3 hs3;
+        bind (_u2, ts5, hs5) <- expect K_FI ts4 hs4;
+        POk (B "if{" ++ fmt_cmds c ++ fmt_cmds l ++ fmt_cmds es ++ B "}") ts5 hs5
+      | K_FOR =>
+        match r with
+        | nm :: r1 =>
+          if is K_NAME nm && name_word (tw nm) then
+            (* For NAME Do | For NAME seq_sep Do | For NAME linebreak In [word_list] seq_sep Do *)
+            let r2 := skip_nl r1 in
+            if head_is K_IN r2 then
+              let '(items, r3) := p_words (tl r2) [] in
+              match r3 with
+              | s :: r4 =>
+                if is K_SEMI s || is K_NL s then p_for_body n' (first_lit (tw nm)) true items (skip_nl r4) hs
+                else PErr (Some (tidx s))
+              | [] => PErr None
+              end
+            else
+              match r1 with
+              | s :: r4 =>
+                if is K_DO s then p_for_body n' (first_lit (tw nm)) false [] r1 hs
+                else if is K_SEMI s then p_for_body n' (first_lit (tw nm)) false [] (skip_nl r4) hs
+                else if is K_NL s then p_for_body n' (first_lit (tw nm)) false [] r2 hs
+                else PErr (Some (tidx s))
+              | [] => PErr None
+              end
+          else PErr (Some (tidx nm))
+        | [] => PErr None
+        end
+      | K_CASE =>
+        match r with
+        | w :: r1 =>
+          if is K_WORD w then
+            bind (_u1, ts2, hs2) <- expect K_IN (skip_nl r1) hs;
+            bind (its, ts3, hs3) <- p_items n' [] (skip_nl ts2) hs2;
+            bind (_u2, ts4, hs4) <- expect K_ESAC ts3 hs3;
+            POk (B "case{" ++ sk_word (tw w) ++ fmt_cmds its ++ B "}") ts4 hs4
+          else PErr (Some (tidx w))
+        | [] => PErr None
+        end
+      | _ => PErr (Some (tidx t))
+      end
+    end
+  end
+(* Do compound_list Done *)
+with p_for_body (n : nat) (name : bytes) (has_in : bool) (items : list bytes) (ts : list token) (hs : list hbody) {struct n} : pres bytes :=
+  match n with
+  | O => PFuel
+  | S n' =>
+    bind (_u1, ts2, hs2) <- expect K_DO ts hs;
+    bind (l, ts3, hs3) <- p_clist n' ts2 hs2;
+    bind (_u2, ts4, hs4) <- expect K_DONE ts3 hs3;
+    POk (B "for{" ++ hex name ++ B ":" ++ (if has_in then B "1" else B "0") ++ fmt_cmds items ++ fmt_cmds l ++ B "}") ts4 hs4
+  end
+(* else_part: (Elif compound_list Then compound_list)* [Else compound_list] *)
+with p_elses (n : nat) (acc : list bytes) (ts : list token) (hs : list hbody) {struct n} : pres (list bytes) :=
+  match n with
+  | O => PFuel
+  | S n' =>
+    match ts with
+    | e :: re =>
+      if is K_ELIF e then
+        bind (c2, tsa, hsa) <- p_clist n' re hs;
+        bind (_u, tsb, hsb) <- expect K_THEN tsa hsa;
+        bind (l2, tsc, hsc) <- p_clist n' tsb hsb;
+        p_elses n' (acc ++ [B "elif{" ++ fmt_cmds c2 ++ fmt_cmds l2 ++ B "}"]) tsc hsc
+      else if is K_ELSE e then
+        bind (l2, tsa, hsa) <- p_clist n' re hs;
+        POk (acc ++ [B "else" ++ fmt_cmds l2]) tsa hsa
+      else POk acc ts hs
+    | [] => POk acc ts hs
+    end
+  end
+(* case_list / case_list_ns; called after linebreak *)
+with p_items (n : nat) (acc : list bytes) (ts : list token) (hs : list hbody) {struct n} : pres (list bytes) :=
+  match n with
+  | O => PFuel
+  | S n' =>
+    if head_is K_ESAC ts then POk acc ts hs
+    else
+      let ts1 := match ts with p :: rp => if is K_LPAREN p then rp else ts | [] => ts end in
+      match ts1 with
+      | p1 :: rp =>
+        if is K_WORD p1 then
+          let '(pats, ts2) := p_pats rp [sk_word (tw p1)] in
+          bind (_u, ts3, hs3) <- expect K_RPAREN ts2 hs;
+          let ts4 := skip_nl ts3 in
+          if head_is K_BREAK ts4 then
+            p_items n' (acc ++ [B "item{" ++ fmt_cmds pats ++ fmt_cmds [] ++ B "1}"]) (skip_nl (tl ts4)) hs3
+          else if head_is K_ESAC ts4 then
+            POk (acc ++ [B "item{" ++ fmt_cmds pats ++ fmt_cmds [] ++ B "0}"]) ts4 hs3
+          else
+            bind (l, ts5, hs5) <- p_clist n' ts3 hs3;
+            match ts5 with
+            | b :: rb =>
+              if is K_BREAK b then
+                p_items n' (acc ++ [B "item{" ++ fmt_cmds pats ++ fmt_cmds l ++ B "1}"]) (skip_nl rb) hs5
+              else if is K_ESAC b then
+                POk (acc ++ [B "item{" ++ fmt_cmds pats ++ fmt_cmds l ++ B "0}"]) ts5 hs5
+              else PErr (Some (tidx b))
+            | [] => PErr None
+            end
+        else PErr (Some (tidx p1))
       | [] => PErr None
       end
-    end.
-End Rec.
+  end.
 
-(** cmdline: complete_cmds linebreak | empty ; complete_cmds: complete_cmd (newline_list complete_cmd)* *)
+(** cmdline: complete_cmds linebreak | empty *)
+Definition budget (ts : list token) : nat := (10 * (length ts + 2))%nat.
+
 Definition parse_tokens (ts : list token) (hs : list hbody) : pres bytes :=
-  let fuel := (8 * S (length ts))%nat in
   match ts with
   | [] => POk (B "()") [] hs
   | _ =>
-    pbind (p_clist fuel ts hs) (fun l ts1 hs1 =>
+    if head_is K_NL ts then err_here ts
+    else
+      bind (l, ts1, hs1) <- p_term (budget ts) [] ts hs;
       match ts1 with
       | [] => POk (fmt_cmds l) [] hs1
       | t :: _ => PErr (Some (tidx t))
-      end)
+      end
   end.
